@@ -135,6 +135,9 @@ pub struct FullType {
     pub interfaces: Option<Vec<FullTypeInterfaces>>,
     pub enum_values: Option<Vec<FullTypeEnumValues>>,
     pub possible_types: Option<Vec<FullTypePossibleTypes>>,
+    /// Only present when the introspection query asked for it (`--is-one-of`).
+    #[serde(default)]
+    pub is_one_of: Option<bool>,
 }
 
 #[derive(Clone, Debug, Deserialize)]
